@@ -2533,8 +2533,11 @@ func (d *decoderJsonBytes) kMap(f *decFnInfo, rv reflect.Value) {
 					rvSetDirect(rvv, reflect.New(vElem))
 				}
 				d.decode(rv2i(rvv))
-			} else {
+			} else if rvv.CanAddr() {
 				d.decode(rv2i(rvAddr(rvv, ti.tielem.ptr)))
+			} else {
+
+				d.decodeValueNoCheckNil(rvv, valFn)
 			}
 		} else {
 			d.decodeValueNoCheckNil(rvv, valFn)
@@ -6722,8 +6725,11 @@ func (d *decoderJsonIO) kMap(f *decFnInfo, rv reflect.Value) {
 					rvSetDirect(rvv, reflect.New(vElem))
 				}
 				d.decode(rv2i(rvv))
-			} else {
+			} else if rvv.CanAddr() {
 				d.decode(rv2i(rvAddr(rvv, ti.tielem.ptr)))
+			} else {
+
+				d.decodeValueNoCheckNil(rvv, valFn)
 			}
 		} else {
 			d.decodeValueNoCheckNil(rvv, valFn)
